@@ -37,6 +37,8 @@ pub fn opts(which: Which) -> Opts {
     o.first_line_empty_pct = if which == Which::C16 { 15 } else { 0 };
     o.ascii_left = true;
     o.unwrap_pct = 35;
+    // two block elements whose tags share a line (`<a> <b>` … `</b> </a>`); with an unwrap-block parent this leaves the domain and is counted
+    o.join_pct = 8;
     o
 }
 
